@@ -443,18 +443,8 @@ func ruleDistinctPages(c *eng.Ctx) {
 		pos = b.Pos()
 		if call, ok := other.(*ssa.Call); ok {
 			if bi, ok := call.Call.Value.(*ssa.Builtin); ok && bi.Name() == "len" {
-				if _, isMap := call.Call.Args[0].Type().Underlying().(*types.Map); isMap {
-					// the map is filled with keys from candidate.PageIndex
-					m := call.Call.Args[0]
-					eng.Instrs(fn, false, func(in2 ssa.Instruction) {
-						if mu, ok := in2.(*ssa.MapUpdate); ok && mu.Map == m {
-							for v := range eng.Slice(mu.Key, nil) {
-								if fr, ok := eng.AsField(v); ok && fr.Field == "PageIndex" {
-									okSet = true
-								}
-							}
-						}
-					})
+				if distinctKeyed(c, fn, call.Call.Args[0], "PageIndex") {
+					okSet = true
 				}
 			}
 		}
@@ -490,4 +480,85 @@ func ruleTextsMatch(c *eng.Ctx) {
 		}
 		c.Check(okT && n > 0, R, "layout.textsMatch#"+p.Name(), fn.Pos(), "only used trimmed", "argument "+p.Name()+" is compared without trimming: padded header text is detected but never removed")
 	}
+}
+
+// distinctKeyed reports whether coll (a value of host) is a duplicate-free
+// collection of the given field of the elements: a map whose every update is
+// keyed by that field, or an int slice into which that field's values are only
+// put after a membership test (a seen-map lookup, or the binary-search idiom on
+// an ascending slice). The collection may be built by a module function called
+// by host.
+func distinctKeyed(c *eng.Ctx, host *ssa.Function, coll ssa.Value, field string) bool {
+	isKey := func(v ssa.Value) bool {
+		for w := range eng.Slice(v, nil) {
+			if fr, ok := eng.AsField(w); ok && fr.Field == field {
+				return true
+			}
+		}
+		return false
+	}
+	if call, ok := coll.(*ssa.Call); ok {
+		if g := call.Call.StaticCallee(); g != nil && len(g.Blocks) > 0 && eng.InModule(g) {
+			okAll, n := true, 0
+			for _, r := range eng.Returns(g) {
+				rv := eng.ReturnValues(r)
+				if len(rv) == 0 {
+					continue
+				}
+				n++
+				if !distinctKeyed(c, g, rv[0], field) {
+					okAll = false
+				}
+			}
+			return okAll && n > 0
+		}
+		return false
+	}
+	if _, isMap := coll.Type().Underlying().(*types.Map); isMap {
+		n, okAll := 0, true
+		eng.Instrs(host, false, func(in ssa.Instruction) {
+			if mu, ok := in.(*ssa.MapUpdate); ok && eng.SameValue(mu.Map, coll) {
+				n++
+				if !isKey(mu.Key) {
+					okAll = false
+				}
+			}
+		})
+		return n > 0 && okAll
+	}
+	if _, isSl := coll.Type().Underlying().(*types.Slice); !isSl {
+		return false
+	}
+	// every insertion of a key into the slice is membership-guarded
+	n, okAll := 0, true
+	for _, st := range sortedInsertStores(host, isKey) {
+		n++
+		if !sortedInsertDedup(host, st.Block(), isKey) {
+			okAll = false
+		}
+	}
+	for _, ci := range eng.Calls(host, false, func(nm string, _ ssa.CallInstruction) bool { return nm == "builtin:append" }) {
+		args := ci.Common().Args
+		if len(args) < 2 || !isKey(args[1]) {
+			continue
+		}
+		n++
+		seen := eng.GuardedBy(host, ci.Block(), func(f eng.Fact) bool {
+			if f.Cond == nil || f.Pos {
+				return false
+			}
+			var lk *ssa.Lookup
+			switch x := f.Cond.(type) {
+			case *ssa.Lookup:
+				lk = x
+			case *ssa.Extract:
+				lk, _ = x.Tuple.(*ssa.Lookup)
+			}
+			return lk != nil && isKey(lk.Index)
+		})
+		if !seen {
+			okAll = false
+		}
+	}
+	return n > 0 && okAll
 }
